@@ -246,5 +246,55 @@ func emitEnums(dir string) error {
 		fmt.Fprintf(&sb, "  (%s, [%s])", q(nme), strings.Join(vs, "; "))
 	}
 	sb.WriteString("\n].\n")
-	return os.WriteFile(dir+"/Enums.v", []byte(sb.String()), 0o644)
+	if err := os.WriteFile(dir+"/Enums.v", []byte(sb.String()), 0o644); err != nil {
+		return err
+	}
+	if len(os.Args) < 3 {
+		return nil
+	}
+	// Go registry for the correspondence harness: one entry per enum type with closures over its
+	// MarshalText / UnmarshalText and the map contents read from the source.
+	var gb strings.Builder
+	gb.WriteString("// Code generated by harness/cmd/extract from /repo/pkg/dialects. DO NOT EDIT.\n\npackage main\n\nimport (\n")
+	pkgset := map[string]bool{}
+	for _, e := range enums {
+		if e.alias == "" && e.hasText {
+			pkgset[e.pkg] = true
+		}
+	}
+	var pkgl []string
+	for p := range pkgset {
+		pkgl = append(pkgl, p)
+	}
+	sort.Strings(pkgl)
+	for _, p := range pkgl {
+		fmt.Fprintf(&gb, "\t%q\n", "github.com/bluenviron/gomavlib/v3/pkg/dialects/"+p)
+	}
+	gb.WriteString(")\n\nfunc init() {\n\tenumRegistry = []enumEntry{\n")
+	for _, e := range enums {
+		if e.alias != "" || !e.hasText {
+			continue
+		}
+		fmt.Fprintf(&gb, "\t\t{Pkg: %q, Name: %q, Bitmask: %v, Bound: %d,\n", e.pkg, e.name, e.bitmask, e.bound)
+		fmt.Fprintf(&gb, "\t\t\tMarshal: func(v uint64) (string, error) { b, err := %s.%s(v).MarshalText(); return string(b), err },\n", e.pkg, e.name)
+		fmt.Fprintf(&gb, "\t\t\tUnmarshal: func(s string) (uint64, error) { var e %s.%s; err := e.UnmarshalText([]byte(s)); return uint64(e), err },\n", e.pkg, e.name)
+		gb.WriteString("\t\t\tConsts: []enumConst{")
+		cv := map[string]uint64{}
+		for _, c := range e.consts {
+			v, _ := eval(e.pkg, c.expr, 0)
+			cv[c.name] = v
+			fmt.Fprintf(&gb, "{%q, %d}, ", c.name, v)
+		}
+		gb.WriteString("},\n\t\t\tLabels: []enumConst{")
+		for _, l := range e.labels {
+			fmt.Fprintf(&gb, "{%q, %d}, ", l[1], cv[l[0]])
+		}
+		gb.WriteString("},\n\t\t\tValues: []enumConst{")
+		for _, l := range e.values {
+			fmt.Fprintf(&gb, "{%q, %d}, ", l[0], cv[l[1]])
+		}
+		gb.WriteString("}},\n")
+	}
+	gb.WriteString("\t}\n}\n")
+	return os.WriteFile(os.Args[2], []byte(gb.String()), 0o644)
 }
